@@ -13,9 +13,16 @@ TRUSTED = [
 
 
 def _hdr_hash():
+    """The harness instantiates header-only code of the repo (Serializer.hpp, MemPacker.hpp, every
+    serializeOp): its cache key must cover the repo headers, not only the library archive."""
+    from translate import serialops
     h = hashlib.sha256()
     for fn in ("serial_codec.hpp", "serial_objects.hpp"):
         h.update(open(os.path.join(vlib.VERIF, "harness", fn), "rb").read())
+    for p in serialops._sources(vlib.REPO):
+        if p.endswith(".hpp"):
+            h.update(p.encode())
+            h.update(open(p, "rb").read())
     return h.hexdigest()[:16]
 
 
